@@ -12,6 +12,7 @@ import ImmuModel.Merkle.Proofs.Roots
 import ImmuModel.Merkle.Proofs.AhtComplete
 import ImmuModel.Merkle.Proofs.ConsSound
 import ImmuModel.Merkle.Proofs.HTreeProofs
+import ImmuModel.Merkle.Proofs.Extra
 import ImmuModel.Merkle.MthLemmas
 
 namespace ImmuModel.Props.C08
@@ -149,6 +150,25 @@ theorem htree_inclusion_complete (mh : MH D) (enc : D → Bytes) (ds : List D) (
       pr.leaf = i ∧ pr.width = ds.length ∧
       hVerifyInclusion mh enc pr (ds[i]) (HTree.build mh enc ds).root = true :=
   hInclusionProof_complete mh enc ds i hi
+
+/-- **Entry-tree position binding.** When the claimed width is the true width and the claimed leaf
+index is in range, an accepted proof pins the digest to exactly that leaf — although the number of
+terms is not checked, the final `i == r` test makes any other length fail (both range hypotheses are
+necessary: out-of-range / negative `Leaf` values admit accepts for other leaves, see Extra.lean). -/
+theorem htree_inclusion_position_sound (mh : MH D) (enc : D → Bytes) (henc : Function.Injective enc)
+    (pr : HProof D) (dg : D) (ds : List D) (hne : ds ≠ [])
+    (hw : pr.width = (ds.length : Int)) (hl0 : 0 ≤ pr.leaf) (hl1 : pr.leaf < pr.width)
+    (hv : hVerifyInclusion mh enc pr dg (mth mh (ds.map (fun d => mh.leafH (enc d)))) = true) :
+    ds[pr.leaf.toNat]? = some dg ∨ Coll mh :=
+  hVerifyInclusion_position_sound mh enc henc pr dg ds hne hw hl0 hl1 hv
+
+/-- **Flat digest-log layout.** Go's `nodesUpto(n)` (offset of the digest group of leaf n+1 in the
+digest log) equals `n + Σ_{k<n} popcount k`: the grouped model and the flat file layout agree, the
+group of leaf `n+1` holding `1 + popcount n = 1 + levelsAt(n+1)` digests. -/
+theorem aht_flat_layout (n : Nat) :
+    AHT.nodesUpto n = n + ((List.range n).map popcount).sum ∧
+    AHT.nodesUpto (n + 1) = AHT.nodesUpto n + 1 + AHT.levelsAt (n + 1) :=
+  ⟨nodesUpto_closed n, nodesUpto_succ_levelsAt n⟩
 
 /-! Non-vacuity: a free (collision-free) hash over a term algebra; the hypotheses of
 `inclusion_sound` are met by a genuine proof in a 3-leaf tree. -/
